@@ -30,6 +30,9 @@ fn run_pipeline(src: &str) -> Result<String, String> {
     let r = catch_unwind(AssertUnwindSafe(|| {
         let program = match ProgramParser::new().parse(src) { Ok(p) => p, Err(_) => return "parse error".to_string() };
         let info = match ProgramRegistryInfo::new(&program) { Ok(i) => i, Err(e) => return format!("registry: Err({e})") };
+        // C14: "calc_metadata (both solvers)" - the equation solvers first, then the linear ones
+        let eq = crate::metadata::MetadataComputationConfig { linear_gas_solver: false, linear_ap_change_solver: false, ..Default::default() };
+        if let Ok(m) = calc_metadata(&program, &info, eq) { let _ = compile(&program, &info, &m, SierraToCasmConfig { gas_usage_check: true, max_bytecode_size: usize::MAX }); }
         let metadata = match calc_metadata(&program, &info, Default::default()) { Ok(m) => m, Err(e) => return format!("metadata: Err({e})") };
         match compile(&program, &info, &metadata, SierraToCasmConfig { gas_usage_check: true, max_bytecode_size: usize::MAX }) {
             Ok(_) => "compile: Ok".to_string(),
